@@ -109,11 +109,12 @@ EpAccept(e) ==
 (* (ep_mul_reg_imp) never reduces k modulo the group order n.  Its regular *)
 (* recoding (bn_rec_reg) has l = ceil(bits(n)/(w-1)) digits of w-1 bits    *)
 (* plus one top digit that must be an odd table index below 2^(w-1), so it *)
-(* represents |k| < 2^((w-1)*(l+1)) only: for longer |k| the call returns  *)
-(* normally with a point that is not [k]P (the constant-time table scan    *)
-(* matches no entry).  bn_rec_reg also copies all digits of k into a stack *)
-(* buffer of ceil(l*(w-1)/RLC_DIG) digits: a k with more digits overruns   *)
-(* it (observed: SIGSEGV), which is the second admitted outcome.           *)
+(* represents |k| < 2^((w-1)*(l+1)) only: for longer |k| the constant-time *)
+(* table scan matches no entry, an uninitialised operand is added and the  *)
+(* call returns a point that is not [k]P (or an affine addition throws).   *)
+(* bn_rec_reg also copies all digits of k into a stack buffer of           *)
+(* ceil(l*(w-1)/RLC_DIG) digits: a k with more digits overruns it          *)
+(* (observed: SIGSEGV), which is the other admitted outcome.               *)
 (*                                                                         *)
 (* C03-fixlwnaf-zero-mod-order: ep_mul_fix_lwnaf reduces k modulo n and    *)
 (* hands the result to ep_mul_fix_plain, which reads naf[l - 1] although   *)
@@ -176,6 +177,7 @@ EpKnownKey(e) ==
          /\ RepOk(e, e.P, SysOf(e)) /\ OnC(e, e.P)
          /\ (BBits(e.k.d) > LwregCap(e) \/ e.k.u > LwregBuf(e))
          /\ IF e.crash # 0 THEN e.k.u > LwregBuf(e)
+            ELSE IF e.err # 0 THEN e.code = 1          \* the garbage operand can also make an affine addition throw
             ELSE Ok(e) /\ ValidTag(e.R) /\ ~PEq(PAbs(e, e.R), KP(e, e.k, e.P))
             -> "C03-lwreg-long-scalar"
       [] /\ e.op = "ep_mul_fix_lwnaf"
